@@ -240,7 +240,8 @@ def run(ck):
 
     def comp(job):
         label, path, targ, _ = job
-        out = path + "." + targ + ".ssa"
+        # outputs go to the scratch directory, never next to a corpus file inside /repo
+        out = os.path.join(d, "%s.%s.%s.ssa" % (common.sha(path)[:8], os.path.basename(path), targ))
         try:
             rc, err = progrun.compile_c(cc, targ, path, out, timeout=60)
         except subprocess.TimeoutExpired:
